@@ -2,6 +2,7 @@ package main
 
 import (
 	"fmt"
+	"os"
 	"sync"
 	"time"
 
@@ -50,6 +51,16 @@ func handlerOrder(c *ctx, rt, name string) {
 	log("H1 registered")
 	w.m.VerifWatch(T, name, false)
 	w.settle()
+	// a lookup that is already WAITING for the name when the update that delivers it arrives: it is woken by that update
+	// and must not return before the registered handler has completed for it either
+	var wwg sync.WaitGroup
+	wwg.Add(1)
+	go func() {
+		defer wwg.Done()
+		log("wget " + w.get(T, name))
+	}()
+	w.waitFor(func() bool { return goroutineIn("select", "(*xdsResourceManager).Get") }, 2*time.Second)
+	defer wwg.Wait()
 	w.feed(mkResp(urlOf(rt), "v1", "n1", []*anypb.Any{anyStamped(rt, name, name+"#1")}))
 	if !w.waitFor(func() bool { return has("H1 enter") }, 5*time.Second) {
 		c.emit(obj{"op": "handlers-order", "rt": rt, "n": name, "obs": obj{"events": events, "hang": true}})
@@ -186,4 +197,97 @@ func registrationRace(c *ctx, rt, name string) {
 	mu.Unlock()
 	c.count("registration-race", 1)
 	c.emit(obj{"op": "handlers-order", "kind": "registration", "rt": rt, "n": name, "obs": obj{"events": ev, "hang": hang}})
+}
+
+// parkingRes is a cached resource whose JSON rendering can be held up: a dump that is rendering it is in the middle of
+// iterating the cache.
+type parkingRes struct {
+	entered chan struct{}
+	gate    chan struct{}
+}
+
+func (p *parkingRes) MarshalJSON() ([]byte, error) {
+	select {
+	case p.entered <- struct{}{}:
+	default:
+	}
+	<-p.gate
+	return []byte(`"parked"`), nil
+}
+
+// dumpRace (C07): a dump is parked while it renders the cache; an update of the same type arrives. Dumps read the maps
+// the updates write: the update has to wait for the dump (they exclude each other through the manager lock); an update
+// that completes while the dump is still iterating is a data race (and, unluckily timed, a crash of the process:
+// "concurrent map iteration and map write").
+func dumpRace(c *ctx, rt string) {
+	path := fmt.Sprintf("%s/xdsverif-dump-%d-%s.json", os.TempDir(), os.Getpid(), rt)
+	defer os.Remove(path)
+	w, err := newWorld(worldOpts{ndsNotRequired: true, fetchTimeout: 3 * time.Second, dumpPath: path})
+	if err != nil {
+		fmt.Println("c07h: world:", err)
+		return
+	}
+	defer w.close()
+	T := rtOf(rt)
+	var mu sync.Mutex
+	var events []string
+	log := func(e string) {
+		mu.Lock()
+		events = append(events, e)
+		mu.Unlock()
+	}
+	pr := &parkingRes{entered: make(chan struct{}, 1), gate: make(chan struct{})}
+	w.m.UpdateResource(T, map[string]xdsresource.Resource{"parked": pr}, "v1")
+	dumpDone := make(chan struct{})
+	go func() { w.m.Dump(); log("dump done"); close(dumpDone) }()
+	select {
+	case <-pr.entered:
+		log("dump parked")
+	case <-time.After(5 * time.Second):
+		close(pr.gate)
+		c.emit(obj{"op": "handlers-order", "kind": "dump", "rt": rt, "n": "parked", "obs": obj{"events": events, "hang": true}})
+		return
+	}
+	updDone := make(chan struct{})
+	var gid int64
+	var gmu sync.Mutex
+	go func() {
+		gmu.Lock()
+		gid = goid()
+		gmu.Unlock()
+		w.m.UpdateResource(T, map[string]xdsresource.Resource{"parked": pr, "other": &xdsresource.ClusterResource{EndpointName: "other#2"}}, "v2")
+		log("update done")
+		close(updDone)
+	}()
+	w.waitFor(func() bool {
+		select {
+		case <-updDone:
+			return true
+		default:
+		}
+		gmu.Lock()
+		g := gid
+		gmu.Unlock()
+		return g != 0 && gBlockedOnMutex(g)
+	}, 3*time.Second)
+	select {
+	case <-updDone:
+	default:
+		log("update waits")
+	}
+	log("dump released")
+	close(pr.gate)
+	hang := false
+	for _, ch := range []chan struct{}{dumpDone, updDone} {
+		select {
+		case <-ch:
+		case <-time.After(5 * time.Second):
+			hang = true
+		}
+	}
+	mu.Lock()
+	ev := append([]string{}, events...)
+	mu.Unlock()
+	c.count("dump-race", 1)
+	c.emit(obj{"op": "handlers-order", "kind": "dump", "rt": rt, "n": "parked", "obs": obj{"events": ev, "hang": hang}})
 }
